@@ -689,3 +689,9 @@ fire("c15-sample-array-registration-dropped", "C15", ARRAY,
      "@logaddexp.register(array, array)\n@sample.register(array, array)\n", "@logaddexp.register(array, array)\n", "R15.8", "sample")
 fire("c15-safediv-scalar-plain-division", "C15", BUILTIN,
      "        return x * _builtin_min(1.0 / y if y != 0 else math.inf, sys.float_info.max)", "        return operator.truediv(x, y)", "R15.9", "safediv")
+
+fire("c06-slice-stop-not-clamped", "C06", TERMS,
+     "        stop = min(dtype, max(start, stop))\n", "        stop = max(start, stop)\n", "R06.6", "SliceMeta.__call__")
+silent("c06-s-slice-clamp-two-steps", "C06", TERMS,
+       "        stop = min(dtype, max(start, stop))\n", "        stop = max(start, stop)\n        stop = min(stop, dtype)\n")
+rename("C06", TERMS, "SliceMeta.__call__")
